@@ -98,6 +98,22 @@ func c10Worker(env *fw.Env) {
 			}
 		}
 	}
+	// Close while every write on the socket blocks (c10_blocked.go): all write-timeout settings x what is in flight
+	base, n = 2_000_000, 0
+	for rep := 0; rep < env.Pick(1, 6); rep++ {
+		for _, wt := range []string{"disabled", "30s", "200ms"} {
+			for _, fl := range []string{"nothing", "sender-blocked-in-write"} {
+				for _, active := range []bool{true, false} {
+					i := base + n
+					n++
+					if !env.Mine(n) || !env.Want(i) {
+						continue
+					}
+					c10Blocked(env, c10BlockedCase{Index: i, Active: active, WriteTimeout: wt, InFlight: fl})
+				}
+			}
+		}
+	}
 }
 
 func c10DoubleOpen(env *fw.Env, i int64, sit string, active, delays bool) {
